@@ -273,3 +273,30 @@ claim(
     "abstract interpretation over a stencil / indicator domain against an oracle derived from the repo's own curl; polynomial identities on concrete planes of free symbols; def-use and call-site rules on the syntax tree",
     "DESIGN.md §5 C13",
 )
+
+claim(
+    "C05",
+    "other",
+    "Decides, for a symbolic number of steps T, that run_fdtd without gradient configuration, with checkpointed gradients and with reversible gradients of 1..4 slices ends at step T with the same history token of fields and detector states (reset, then steps 0..T-1 with record_detectors=True and simulate_boundaries=True) and untouched materials; every loop starts at the previous exit and its max_steps covers its length. The reversible driver is analysed against any strictly increasing partition 0 = s_0 < ... < s_k = T, and _reversible_slice_boundaries is shown to meet that contract for k = 1..6 (values round(x_i), x_0 = 0, x_k = T, constant increment T/k, driver rejects k > T) by the rounding lemma. record_boundaries affects only the recording state; run_fdtd's dispatch table. Round-off differences between strategies are not decided.",
+    TB + "; counting-loop summary of eqxi.while_loop; `forward` as an opaque deterministic step; rounding lemma (DESIGN.md)",
+    "abstract interpretation of the drivers with symbolic step counts: counting-loop summaries, history tokens with run fusion, linear-inequality facts; normal-form check of the partition formula against a proven lemma",
+    "DESIGN.md §5 C05",
+)
+
+claim(
+    "C06",
+    "other",
+    "Decides on the drivers for symbolic step counts: custom_fdtd_forward a -> b then b -> c on the returned container equals a -> c (same step, same history token) for Python-int and array-valued bounds, every loop starting at start_time with a trip bound covering end - start for all 0 <= start <= end <= time_steps_total; ArrayContainer.reset on a used dispersive container zeroes every declared FieldState member (enumerated from the class) and every detector state, keeps materials / conductivities / dispersive coefficients, keeps the recording buffers by default and zeroes them on request; run_fdtd, checkpointed_fdtd, reversible_fdtd and custom_fdtd_forward(reset_container=True) from a used container give the token of a pristine one, a rerun on returned arrays gives the identical token, and a partial run without reset continues from the given state.",
+    TB + "; counting-loop summary of eqxi.while_loop; `forward` as an opaque deterministic step; jax.tree.map as a leaf-wise map",
+    "abstract interpretation of the drivers and of ArrayContainer.reset over history tokens; counting-loop summaries with linear-inequality facts; exhaustiveness against the declared class members",
+    "DESIGN.md §5 C06",
+)
+
+claim(
+    "C04",
+    "other",
+    "Narrow: gradient equality is a numerical statement; decided is the structure it rests on (chain rule over the executed steps). On reversible_fdtd's own custom-VJP closures, captured by interpreting the driver for symbolic T and 1..3 slices: the reverse loop starts at (T, final state), steps by -1 and exits at 0, so exactly the forward steps T-1..0 are linearised; each iteration reconstructs with backward(record_detectors=False, reset_fields=False) and calls jax.vjp on forward_single_args_wrapper with the primal forward's record_detectors / simulate_boundaries, record_boundaries=False, the run's config / key / conductivities and the reconstructed state as primals in the wrapper's parameter order; the pull-back is applied to the carried cotangent and its result carried; fdtd_bwd returns the inverse-permittivity / inverse-permeability cotangents in the primal's slots of those names and None elsewhere; fdtd_fwd runs the primal's segmented forward, checkpoint i is the field state at s_i and is restored exactly when the reverse counter equals s_i; forward_single_args_wrapper is the identity on slots; reverse updates evaluate every source at the forward call's time with inverse=True.",
+    TB + "; counting-loop summary; recording models of jax.custom_vjp / jax.vjp; chain rule; exact reconstruction is C02 / C03",
+    "abstract interpretation of the custom-VJP closures with symbolic step counts (loop summary, recorded vjp operands, slot tables); sibling agreement of call-site tables on the syntax tree",
+    "DESIGN.md §5 C04",
+)
